@@ -107,6 +107,18 @@ def c12(tier):
         trusted=["converter go/ast+go/types -> Model_Expr terms; type-switch entries + types.Implements table -> Model_Claims terms",
                  "go/types (constant values, Implements), ruleguard/gogrep engine for sloppyLen and offBy1: modelled, not verified",
                  "Go toolchain used to compile and run the instrumented programs"])
+def c11(tier):
+    vlib.standard(
+        "C11", tier, "c11", ["Properties_C11.v", "Proofs_Regex.v", "Proofs_RegexRules.v", "Proofs_RegexSimplify.v"],
+        timeout=3000,
+        assume=[
+            "Go's regexp engine is modelled (Model_Regex.m / den), not verified: the matcher is compared with regexp.FindStringSubmatchIndex on sampled (pattern, subject) pairs on every run",
+            "the third-party parser quasilyte/regex/syntax is an input of the model (its tree is dumped for every pattern and for the model's pass-1 text)",
+            "whether Go's regexp parses a rewritten TEXT to the tree the simplifier meant is not a theorem; the places where it does not are found by the oracle (re-lexing classes among the known findings)",
+            "subjects are valid UTF-8; case folding is modelled for ASCII, U+212A and U+017F only; \\p{..} classes and an operator directly after a flag group are outside the model",
+        ],
+        trusted=["Go harness internal/c11 (generators, tree dump, classification of oracle witnesses)",
+                 "coqc is also run by the harness itself to obtain the model's pass-1 text, whose parse tree the real parser then supplies"])
 
 
 def c16(tier):
